@@ -52,7 +52,7 @@ Definition step (classify : N -> cls) (s : tstate) (i : nat) (c : N) : tstate + 
           else inl s1
         else if c =? q then inl (set_qc (set_cur s (update (cur s) c i None)) qrest)
         else
-          let push := if ((c =? cBT) || (c =? cLP) || (c =? cLS)) && ((q =? cRB) || (q =? cRP) || (q =? cRS))
+          let push := if ((c =? cBT) || (c =? cLP) || (c =? cLS) || (c =? cDQ) || (c =? cSQ)) && ((q =? cRB) || (q =? cRP) || (q =? cRS))
                       then [if c =? cLP then cRP else if c =? cLS then cRS else c] else [] in
           inl (set_qc (set_cur s (update (cur s) c i None)) (push ++ qc s))
     | [] =>
